@@ -45,8 +45,10 @@
 (* user-level meaning, lnrpc cltv_limit); outChans = <<>> and lastHop = "" *)
 (* mean "unrestricted".  hints = route hints of the invoice: directed       *)
 (* policies of private channels that are not in the graph; for the request *)
-(* they are part of the graph (Known).  A hint carries no capacity (lnd     *)
-(* assumes 10 BTC; recorded as 2*10^9 msat) and no inbound fee.             *)
+(* they are part of the graph (Known).  A hop hint carries no capacity    *)
+(* (lnd assumes 10 BTC; recorded as 2*10^9 msat), no min/max HTLC and no   *)
+(* inbound fee; its extra field rh names the route hint (chain of hop      *)
+(* hints x -> y -> target) it belongs to and is not used by the judge.     *)
 (*                                                                         *)
 (* A route is                                                              *)
 (*   [found, src, totalAmt, totalTL, totalFees, recvAmt, payload, hops]    *)
